@@ -1,4 +1,5 @@
 import Econf.Props.LeafMergeEx
+import Econf.Props.C03
 open MiniC Leaf LeafKf
 set_option linter.unusedSimpArgs false
 set_option linter.unusedVariables false
@@ -294,7 +295,9 @@ theorem C_merge_existing_groups (m : Mem) (bk bl0 fa cell bu bua be bea : Nat) (
       (∃ ablk', m'[fa]? = some ablk' ∧ ablk'.live = true ∧ ablk'.writable = true ∧ ablk'.cells = [] ∧ ablk'.slots.length = 7 * cap ∧
         ∀ k, k < 7 * start → ablk'.slots[k]? = ablk0.slots[k]?) ∧
       (∀ j (h : j < (Econf.mergeExisting us es).length), EntMem m' fa (7 * (start + j)) ((Econf.mergeExisting us es)[j]) [bk, bl']) ∧
-      (∀ b, b < m.length → b ∉ [bk, bl0, fa] → m'[b]? = m[b]?) ∧ m.length ≤ m'.length := by
+      (∀ b, b < m.length → b ∉ [bk, bl0, fa] → m'[b]? = m[b]?) ∧ m.length ≤ m'.length ∧
+      (bl' = bl0 ∨ m.length ≤ bl') ∧ (∀ blk, m'[bk]? = some blk → blk.writable = true) ∧ bk ≠ bl' ∧ (∀ x, x ∈ gl' → x.1 ≠ bk ∧ x.1 ≠ bl') ∧
+      gl'.length ≤ gl0.length + (Econf.mergeExisting us es).length := by
   have hss := C.ssmall
   have wS : wrapTo .u64 (start : Int) = (start : Int) := wrapTo_u64_small _ (by omega) (by omega)
   have w0 : wrapTo .u64 0 = 0 := wrapTo_u64_small 0 (by decide) (by decide)
@@ -354,7 +357,280 @@ theorem C_merge_existing_groups (m : Mem) (bk bl0 fa cell bu bua be bea : Nat) (
     have h2 := congrArg (fun l => l[j]?) this
     simpa [h] using h2
   refine ⟨memR, moLoc bk cell bu be start (start + (meUpTo us es us.length).length) us.length v7 v8 v9 v10 v11 v12 v13 v14, bl', gl',
-    by simp [exec, evalE, evalL, readPlace, bind, Except.bind, hmod], d1, d7, hAR.arr, fun j hj => ?_, hAR.agree, hAR.grows⟩
+    by simp [exec, evalE, evalL, readPlace, bind, Except.bind, hmod], d1, d7, hAR.arr, fun j hj => ?_, hAR.agree, hAR.grows, d2, d3, d4, d5, d6⟩
   rw [← hcpy j hj]; exact d8 j hj
 
+/-- an object described in an old memory is still there, with another avoid list, in a memory that agrees with the old one on the
+    blocks that were not to be avoided -/
+theorem SrcMem.transfer {m0 m : Mem} {bo ba : Nat} {es : List Econf.Entry} {av0 av : List Nat} (h : SrcMem m0 bo ba es av0)
+    (hm : ∀ b, b < m0.length → b ∉ av0 → m[b]? = m0[b]?) (hav : ∀ b, b < m0.length → b ∉ av0 → b ∉ av) : SrcMem m bo ba es av := by
+  obtain ⟨kb, k1, k2, k3, k4⟩ := h.kf
+  obtain ⟨ab, a1, a2, a3⟩ := h.arr
+  have hbo : bo < m0.length := (List.getElem?_eq_some_iff.1 k1).1
+  have hba : ba < m0.length := (List.getElem?_eq_some_iff.1 a1).1
+  exact ⟨⟨kb, by rw [hm bo hbo h.kfav]; exact k1, k2, k3, k4⟩, hav bo hbo h.kfav, ⟨ab, by rw [hm ba hba h.arrav]; exact a1, a2, a3⟩, hav ba hba h.arrav,
+    fun i hi => (h.ents i hi).transfer hm hav⟩
+
+/-- an element of the array stays what it is over a later step that keeps its words and every older block outside the destination's two
+    and the array (which may move to `fa'`) -/
+theorem EntMem.carry {m m' : Mem} {fa fa' os bk bl bl' : Nat} {e : Econf.Entry} {ablk ablk' : Block} (skip : List Nat)
+    (h : EntMem m fa os e [bk, bl]) (ha : m[fa]? = some ablk) (hac : ablk.cells = []) (ha' : m'[fa']? = some ablk') (hl' : ablk'.live = true)
+    (hw : ∀ k, k < 7 → ablk'.slots[os + k]? = ablk.slots[os + k]?)
+    (hfr : ∀ b, b < m.length → b ≠ bk → b ≠ bl → b ≠ fa → b ∉ skip → m'[b]? = m[b]?)
+    (hskip : ∀ b, b ∈ skip → ∀ str, m.cstr b 0 ≠ .ok str)
+    (hbl : bl' = bl ∨ m.length ≤ bl') (hfa : fa' ≠ bk ∧ fa' ≠ bl') : EntMem m' fa' os e [bk, bl'] := by
+  have hp := h.ptr_str
+  refine h.reblock' ha ha' hl' hw (fun k hk b hl => ?_) (fun k hk b hl => ?_) (by simp; exact hfa)
+  · obtain ⟨⟨str, hc⟩, hav⟩ := hp k hk b hl
+    simp only [List.mem_cons, List.not_mem_nil, or_false, not_or] at hav
+    exact hfr b (cstr_lt hc) hav.1 hav.2 (fun hh => no_cstr ha hac str (hh ▸ hc)) (fun hs => hskip b hs str hc)
+  · obtain ⟨⟨str, hc⟩, hav⟩ := hp k hk b hl
+    simp only [List.mem_cons, List.not_mem_nil, or_false, not_or] at hav ⊢
+    refine ⟨hav.1, ?_⟩
+    rcases hbl with e | e
+    · rw [e]; exact hav.2
+    · have := cstr_lt hc; omega
+
+theorem addGroup_idem' (gs : List (List UInt8)) (g : List UInt8) : Econf.addGroup (Econf.addGroup gs g) g = Econf.addGroup gs g := addGroup_idem gs g
+
+/-- the group-less entries add the group-less marker once -/
+theorem foldl_addGroup_none (names : List (List UInt8)) (l : List Econf.Entry) (hl : ∀ e, e ∈ l → e.group = Econf.NONE) :
+    (l.map (·.group)).foldl Econf.addGroup names = (if l.length = 0 then names else Econf.addGroup names Econf.NONE) := by
+  induction l generalizing names with
+  | nil => simp
+  | cons e l ih =>
+    have he := hl e (by simp)
+    rw [List.map_cons, List.foldl_cons, he, ih (Econf.addGroup names Econf.NONE) (fun x hx => hl x (by simp [hx]))]
+    by_cases h0 : l.length = 0
+    · simp [h0]
+    · simp [h0, addGroup_idem]
+
+theorem insertNoGroup_groups (us es : List Econf.Entry) : ∀ e, e ∈ Econf.insertNoGroup us es → e.group = Econf.NONE := by
+  intro e he
+  unfold Econf.insertNoGroup at he
+  split at he
+  · simp at he
+  · simp only [List.mem_map, List.mem_filter] at he
+    obtain ⟨x, ⟨_, hx⟩, rfl⟩ := he
+    simpa [Econf.cpyEntry] using hx
+
+/-- **The three calls of `econf_mergeFiles` in sequence**, on the generated terms: from a destination `bk` with group list `gl0`, a fresh
+    entry array of `cap` entries behind the cell `*fe`, a base `us` and an override `es` that live apart from them, the calls
+    `insert_nogroup`, `merge_existing_groups(…, n1)`, `add_new_groups(…, n2)` return `n1`, `n2`, `n3` with `n3` the length of the model's
+    `mergeEntries us es`, the array `*fe` points to afterwards holds exactly `mergeEntries us es`, the destination's group list is the old one
+    with the groups of these entries added in order of first use, and every other block of the caller is unchanged. -/
+theorem C_merge3 (m : Mem) (bk bl0 fa cell bu bua be bea : Nat) (us es : List Econf.Entry) (gl0 : List (Nat × List UInt8)) (cap : Nat)
+    (hUs : SrcMem m bu bua us [bk, bl0, fa]) (hEs : SrcMem m be bea es [bk, bl0, fa])
+    (cblk : Block) (hc1 : m[cell]? = some cblk) (hc2 : cblk.live = true) (hc3 : cblk.slots[0]? = some (.ptr fa 0)) (hc4 : cblk.writable = true) (hc5 : cblk.cells = [])
+    (hcav : cell ∉ [bk, bl0, fa]) (hfane : fa ≠ bk ∧ fa ≠ bl0)
+    (hG : GlMem m bk bl0 gl0) (hkw : ∀ blk, m[bk]? = some blk → blk.writable = true) (hne : bk ≠ bl0) (hd : ∀ x, x ∈ gl0 → x.1 ≠ bk ∧ x.1 ≠ bl0)
+    (ablk0 : Block) (ha1 : m[fa]? = some ablk0) (ha2 : ablk0.live = true) (ha3 : ablk0.writable = true) (ha4 : ablk0.cells = []) (ha5 : ablk0.slots.length = 7 * cap)
+    (hcap : (Econf.mergeEntries us es).length ≤ cap) (hcap2 : es.length ≤ cap)
+    (hsmall : (gl0.length : Int) + (Econf.mergeEntries us es).length + es.length + 2 < 2147483648)
+    (husmall : (us.length : Int) + 1 < 18446744073709551616) (hesmall : (es.length : Int) + 1 < 18446744073709551616)
+    (hcsmall : (7 * cap : Int) < 18446744073709551616)
+    (hlines : ∀ e ∈ es, (e.line : Int) < 18446744073709551616) (hulines : ∀ e ∈ us, (e.line : Int) < 18446744073709551616)
+    (fuel : Nat) (hf : gl0.length + (Econf.mergeEntries us es).length + es.length + us.length + 4 < fuel) :
+    ∃ m1 m2 m3 loc1 loc2 loc3 bl' gl' fa',
+      exec fuel LeafFns.insert_nogroup.body { mem := m, loc := [.ptr bk 0, .ptr cell 0, .ptr bu 0, .ptr be 0, .undef, .undef, .undef, .undef, .undef] } =
+        .ret (.int ((Econf.insertNoGroup us es).length : Int)) { mem := m1, loc := loc1 } ∧
+      exec fuel LeafFns.merge_existing_groups.body
+        { mem := m1, loc := [.ptr bk 0, .ptr cell 0, .ptr bu 0, .ptr be 0, .int ((Econf.insertNoGroup us es).length : Int)] ++ List.replicate 10 .undef } =
+        .ret (.int (((Econf.insertNoGroup us es).length + (Econf.mergeExisting us es).length : Nat) : Int)) { mem := m2, loc := loc2 } ∧
+      exec fuel LeafFns.add_new_groups.body
+        { mem := m2, loc := [.ptr bk 0, .ptr cell 0, .ptr bu 0, .ptr be 0, .int (((Econf.insertNoGroup us es).length + (Econf.mergeExisting us es).length : Nat) : Int),
+          .undef, .undef, .undef, .undef, .undef] } =
+        .ret (.int ((Econf.mergeEntries us es).length : Int)) { mem := m3, loc := loc3 } ∧
+      GlMem m3 bk bl' gl' ∧
+      gl'.map (·.2) = ((Econf.mergeEntries us es).map (·.group)).foldl Econf.addGroup (gl0.map (·.2)) ∧
+      (∃ cblk', m3[cell]? = some cblk' ∧ cblk'.live = true ∧ cblk'.slots[0]? = some (.ptr fa' 0)) ∧
+      (∀ j (h : j < (Econf.mergeEntries us es).length), EntMem m3 fa' (7 * j) ((Econf.mergeEntries us es)[j]) [bk, bl']) ∧
+      (∀ b, b < m.length → b ∉ [bk, bl0, fa, cell] → m3[b]? = m[b]?) := by
+  have hfalt : fa < m.length := (List.getElem?_eq_some_iff.1 ha1).1
+  have hclt : cell < m.length := (List.getElem?_eq_some_iff.1 hc1).1
+  obtain ⟨kb0, kq1, _⟩ := hG.kf
+  obtain ⟨gb0, gq1, _⟩ := hG.arr
+  have hbklt : bk < m.length := (List.getElem?_eq_some_iff.1 kq1).1
+  have hbllt : bl0 < m.length := (List.getElem?_eq_some_iff.1 gq1).1
+  have hcav' := hcav
+  simp only [List.mem_cons, List.not_mem_nil, or_false, not_or] at hcav'
+  have hE123 : (Econf.mergeEntries us es).length = (Econf.insertNoGroup us es).length + (Econf.mergeExisting us es).length + (Econf.addNewGroups us es).length := by
+    simp [Econf.mergeEntries]; omega
+  -- the first call
+  have hng := ngSel_model us es
+  have hn1 : (ngSel us es).length = (Econf.insertNoGroup us es).length := by rw [← hng]; simp
+  obtain ⟨m1, loc1, bl1, gl1, hex1, hG1, hnm1, hE1, hfr1, hlen1, hbl1, hkw1, hne1, hd1, hgl1, ⟨ablk1, b1, b2, b3, b4, b5⟩⟩ :=
+    insert_nogroup_exec m bk bl0 fa cell bu bua be bea us es gl0 cap hUs.toKf husmall
+      ⟨hEs, ⟨cblk, hc1, hc2, hc3⟩, hcav, hfalt, hbklt, hbllt, hfane, hcap2, by omega, hlines⟩ hG hkw hne hd ablk0 ha1 ha2 ha3 ha4 ha5 fuel (by omega)
+  have hgrow1 : m.length ≤ m1.length := hlen1
+  have hbl1lt : bl1 < m1.length := by obtain ⟨g, g1, _⟩ := hG1.arr; exact (List.getElem?_eq_some_iff.1 g1).1
+  have hbl1ne : ∀ b, b < m.length → b ≠ bl0 → b ≠ bl1 := by
+    intro b hb hne'
+    rcases hbl1 with e | e
+    · rw [e]; exact hne'
+    · omega
+  have hav01 : ∀ b, b < m.length → b ∉ [bk, bl0, fa] → b ∉ [bk, bl1, fa] := by
+    intro b hb hav
+    simp only [List.mem_cons, List.not_mem_nil, or_false, not_or] at hav ⊢
+    exact ⟨hav.1, hbl1ne b hb hav.2.1, hav.2.2⟩
+  have hc1' : m1[cell]? = some cblk := by rw [hfr1 cell hclt hcav]; exact hc1
+  -- the second call
+  have hEsum : (Econf.insertNoGroup us es).length + (Econf.mergeExisting us es).length ≤ (Econf.mergeEntries us es).length := by omega
+  have hctx2 : MeCtx m1 bk bl1 fa cell bu bua be bea us es gl1.length cap (Econf.insertNoGroup us es).length :=
+    ⟨⟨⟨cblk, hc1', hc2, hc3⟩, hav01 cell hclt hcav, by omega, by omega, hbl1lt, ⟨hfane.1, hbl1ne fa hfalt hfane.2⟩⟩,
+      hEs.transfer hfr1 hav01, hUs.transfer hfr1 hav01, by omega, by omega, husmall, hesmall, by omega, hlines, hulines⟩
+  obtain ⟨m2, loc2, bl2, gl2, hex2, hG2, hnm2, ⟨ablk2, c1, c2, c3, c4, c5, c6⟩, hE2, hfr2, hlen2, hbl2, hkw2, hne2, hd2, hgl2⟩ :=
+    C_merge_existing_groups m1 bk bl1 fa cell bu bua be bea us es gl1 cap (Econf.insertNoGroup us es).length hctx2 hG1 hkw1 hne1 hd1
+      ablk1 b1 b2 b3 b4 b5 fuel (by omega)
+  have hgrow2 : m1.length ≤ m2.length := hlen2
+  have hbl2lt : bl2 < m2.length := by obtain ⟨g, g1, _⟩ := hG2.arr; exact (List.getElem?_eq_some_iff.1 g1).1
+  have hbl2ne : ∀ b, b < m1.length → b ≠ bl1 → b ≠ bl2 := by
+    intro b hb hne'
+    rcases hbl2 with e | e
+    · rw [e]; exact hne'
+    · omega
+  have hfr02 : ∀ b, b < m.length → b ∉ [bk, bl0, fa] → m2[b]? = m[b]? := fun b hb hav => by
+    rw [hfr2 b (by omega) (hav01 b hb hav)]; exact hfr1 b hb hav
+  have hav02 : ∀ b, b < m.length → b ∉ [bk, bl0, fa] → b ∉ [bk, bl2, fa] := by
+    intro b hb hav
+    have h1 := hav01 b hb hav
+    simp only [List.mem_cons, List.not_mem_nil, or_false, not_or] at h1 ⊢
+    exact ⟨h1.1, hbl2ne b (by omega) h1.2.1, h1.2.2⟩
+  have hc2' : m2[cell]? = some cblk := by rw [hfr02 cell hclt hcav]; exact hc1
+  -- the third call
+  have hag := agSel_model us es
+  have hn3 : (selBy (agP us) es es.length).length = (Econf.addNewGroups us es).length := by rw [← hag]; simp
+  have hctx3 : AgCtx m2 bk bl2 fa cell bu bua be bea us es gl2.length cap ((Econf.insertNoGroup us es).length + (Econf.mergeExisting us es).length) :=
+    ⟨hEs.transfer hfr02 hav02, hUs.transfer hfr02 hav02, ⟨cblk, hc2', hc2, hc3⟩, hav02 cell hclt hcav, by omega, by omega, hbl2lt,
+      ⟨hfane.1, hbl2ne fa (by omega) (hbl1ne fa hfalt hfane.2)⟩, by omega, by omega, husmall, by omega, hcsmall, hlines⟩
+  obtain ⟨m3, loc3, bl3, gl3, fa', hex3, hG3, hnm3, hcell3, ⟨ablk3, e1, e2, e6⟩, hE3, hfr3, hlen3, hbl3, hfa3⟩ :=
+    C_add_new_groups m2 bk bl2 fa cell bu bua be bea us es gl2 cap ((Econf.insertNoGroup us es).length + (Econf.mergeExisting us es).length) hctx3
+      (fun cb hcb => by rw [hc2'] at hcb; injection hcb with hcb; subst hcb; exact ⟨hc4, hc5⟩) hG2 hkw2 hne2 hd2 ablk2 c1 c2 c3 c4 c5 fuel (by omega)
+  have hcellno2 : ∀ b, b ∈ [cell] → ∀ str, m2.cstr b 0 ≠ .ok str := by
+    intro b hb str
+    simp only [List.mem_singleton] at hb
+    subst hb
+    exact no_cstr hc2' hc5 str
+  have hfr3' : ∀ b, b < m2.length → b ≠ bk → b ≠ bl2 → b ≠ fa → b ∉ [cell] → m3[b]? = m2[b]? := fun b hb h1 h2 h3 h4 =>
+    hfr3 b hb (by simp only [List.mem_cons, List.not_mem_nil, or_false, not_or] at h4 ⊢; exact ⟨h1, h2, h3, h4⟩)
+  refine ⟨m1, m2, m3, loc1, loc2, loc3, bl3, gl3, fa', by rw [← hn1]; exact hex1, hex2, by rw [hE123]; exact hex3, hG3, ?_, hcell3, ?_, ?_⟩
+  · -- the group list
+    rw [hnm3, hnm2, hnm1, hn1, ← foldl_addGroup_none (gl0.map (·.2)) (Econf.insertNoGroup us es) (insertNoGroup_groups us es)]
+    simp [Econf.mergeEntries, List.map_append, List.foldl_append]
+  · intro j hj
+    have hme : Econf.mergeEntries us es = Econf.insertNoGroup us es ++ Econf.mergeExisting us es ++ Econf.addNewGroups us es := rfl
+    have hfa2 : fa ≠ bk ∧ fa ≠ bl2 := ⟨hfane.1, hbl2ne fa (by omega) (hbl1ne fa hfalt hfane.2)⟩
+    have carry12 : ∀ (os : Nat) (e : Econf.Entry), os + 7 ≤ 7 * (Econf.insertNoGroup us es).length → EntMem m1 fa os e [bk, bl1] → EntMem m2 fa os e [bk, bl2] := by
+      intro os e hos h1e
+      exact h1e.carry [] b1 b4 c1 c2 (fun k hk => c6 (os + k) (by omega))
+        (fun b hb h1 h2 h3 _ => hfr2 b hb (by simp only [List.mem_cons, List.not_mem_nil, or_false, not_or]; exact ⟨h1, h2, h3⟩)) (by simp) hbl2 hfa2
+    have carry23 : ∀ (os : Nat) (e : Econf.Entry), os + 7 ≤ 7 * ((Econf.insertNoGroup us es).length + (Econf.mergeExisting us es).length) → EntMem m2 fa os e [bk, bl2] → EntMem m3 fa' os e [bk, bl3] := by
+      intro os e hos h2e
+      exact h2e.carry [cell] c1 c4 e1 e2 (fun k hk => e6 (os + k) (by omega)) hfr3' hcellno2 hbl3 hfa3
+    by_cases hj1 : j < (Econf.insertNoGroup us es).length
+    · -- inserted by the first call
+      have hel : (Econf.mergeEntries us es)[j] = (Econf.insertNoGroup us es)[j] := by
+        simp only [hme]
+        rw [List.getElem_append_left (by simp; omega), List.getElem_append_left hj1]
+      have hcp : (Econf.insertNoGroup us es)[j] = Econf.cpyEntry ((ngSel us es)[j]'(by omega)) := by simp [← hng]
+      rw [hel, hcp]
+      exact carry23 (7 * j) _ (by omega) (carry12 (7 * j) _ (by omega) (hE1 j (by omega)))
+    · by_cases hj2 : j < (Econf.insertNoGroup us es).length + (Econf.mergeExisting us es).length
+      · -- written by the second call
+        have hel : (Econf.mergeEntries us es)[j] = (Econf.mergeExisting us es)[j - (Econf.insertNoGroup us es).length]'(by omega) := by
+          simp only [hme]
+          rw [List.getElem_append_left (by simp; omega), List.getElem_append_right (by omega)]
+        rw [hel]
+        have h2e := hE2 (j - (Econf.insertNoGroup us es).length) (by omega)
+        have hidx : (Econf.insertNoGroup us es).length + (j - (Econf.insertNoGroup us es).length) = j := by omega
+        rw [hidx] at h2e
+        exact carry23 (7 * j) _ (by omega) h2e
+      · -- appended by the third call
+        have hel : (Econf.mergeEntries us es)[j] = (Econf.addNewGroups us es)[j - ((Econf.insertNoGroup us es).length + (Econf.mergeExisting us es).length)]'(by omega) := by
+          simp only [hme]
+          rw [List.getElem_append_right (by simp; omega)]
+          simp
+        rw [hel]
+        have h3e := hE3 (j - ((Econf.insertNoGroup us es).length + (Econf.mergeExisting us es).length)) (by omega)
+        have hidx : (Econf.insertNoGroup us es).length + (Econf.mergeExisting us es).length + (j - ((Econf.insertNoGroup us es).length + (Econf.mergeExisting us es).length)) = j := by omega
+        rw [hidx] at h3e
+        exact h3e
+  · intro b hb hav
+    simp only [List.mem_cons, List.not_mem_nil, or_false, not_or] at hav
+    have h0 : b ∉ [bk, bl0, fa] := by simp only [List.mem_cons, List.not_mem_nil, or_false, not_or]; exact ⟨hav.1, hav.2.1, hav.2.2.1⟩
+    have h2 := hav02 b hb h0
+    simp only [List.mem_cons, List.not_mem_nil, or_false, not_or] at h2
+    rw [hfr3 b (by omega) (by simp only [List.mem_cons, List.not_mem_nil, or_false, not_or]; exact ⟨h2.1, h2.2.1, h2.2.2, hav.2.2.2⟩)]
+    exact hfr02 b hb h0
+
+/-- … with an empty group list and the array `econf_mergeFiles` allocates (`etc->length + usr->length` entries, enough by the list-level bound
+    `C03_bound`).  Array and group list are then the `entries` and `groups` of the model's `mergeFiles`.
+    (`GlMem m bk bl0 []` wants the group array allocated with its one terminating slot; the object `econf_mergeFiles` has just made has
+    `groups == NULL`, and the first `setGroupList` on it goes through `realloc(NULL, …)`: that one step is outside these theorems.) -/
+theorem C_merge3_mergeFiles (m : Mem) (bk bl0 fa cell bu bua be bea : Nat) (us es : List Econf.Entry)
+    (hUs : SrcMem m bu bua us [bk, bl0, fa]) (hEs : SrcMem m be bea es [bk, bl0, fa])
+    (cblk : Block) (hc1 : m[cell]? = some cblk) (hc2 : cblk.live = true) (hc3 : cblk.slots[0]? = some (.ptr fa 0)) (hc4 : cblk.writable = true) (hc5 : cblk.cells = [])
+    (hcav : cell ∉ [bk, bl0, fa]) (hfane : fa ≠ bk ∧ fa ≠ bl0)
+    (hG : GlMem m bk bl0 []) (hkw : ∀ blk, m[bk]? = some blk → blk.writable = true) (hne : bk ≠ bl0)
+    (ablk0 : Block) (ha1 : m[fa]? = some ablk0) (ha2 : ablk0.live = true) (ha3 : ablk0.writable = true) (ha4 : ablk0.cells = [])
+    (ha5 : ablk0.slots.length = 7 * (es.length + us.length))
+    (hsmall : (us.length : Int) + 2 * es.length + 2 < 2147483648)
+    (hlines : ∀ e ∈ es, (e.line : Int) < 18446744073709551616) (hulines : ∀ e ∈ us, (e.line : Int) < 18446744073709551616)
+    (fuel : Nat) (hf : 2 * es.length + 2 * us.length + 4 < fuel) :
+    ∃ m1 m2 m3 loc1 loc2 loc3 bl' gl' fa' n1 n2,
+      exec fuel LeafFns.insert_nogroup.body { mem := m, loc := [.ptr bk 0, .ptr cell 0, .ptr bu 0, .ptr be 0, .undef, .undef, .undef, .undef, .undef] } =
+        .ret (.int (n1 : Int)) { mem := m1, loc := loc1 } ∧
+      exec fuel LeafFns.merge_existing_groups.body { mem := m1, loc := [.ptr bk 0, .ptr cell 0, .ptr bu 0, .ptr be 0, .int (n1 : Int)] ++ List.replicate 10 .undef } =
+        .ret (.int (n2 : Int)) { mem := m2, loc := loc2 } ∧
+      exec fuel LeafFns.add_new_groups.body { mem := m2, loc := [.ptr bk 0, .ptr cell 0, .ptr bu 0, .ptr be 0, .int (n2 : Int), .undef, .undef, .undef, .undef, .undef] } =
+        .ret (.int ((Econf.mergeEntries us es).length : Int)) { mem := m3, loc := loc3 } ∧
+      GlMem m3 bk bl' gl' ∧ gl'.map (·.2) = Econf.groupsOf (Econf.mergeEntries us es) ∧
+      (∃ cblk', m3[cell]? = some cblk' ∧ cblk'.live = true ∧ cblk'.slots[0]? = some (.ptr fa' 0)) ∧
+      (∀ j (h : j < (Econf.mergeEntries us es).length), EntMem m3 fa' (7 * j) ((Econf.mergeEntries us es)[j]) [bk, bl']) ∧
+      (∀ b, b < m.length → b ∉ [bk, bl0, fa, cell] → m3[b]? = m[b]?) := by
+  have hb := Econf.C03_bound us es
+  obtain ⟨m1, m2, m3, loc1, loc2, loc3, bl', gl', fa', h1, h2, h3, hG3, hn, hc, hE, hfr⟩ :=
+    C_merge3 m bk bl0 fa cell bu bua be bea us es [] (es.length + us.length) hUs hEs cblk hc1 hc2 hc3 hc4 hc5 hcav hfane hG hkw hne (by simp)
+      ablk0 ha1 ha2 ha3 ha4 ha5 (by omega) (by omega) (by simp; omega) (by omega) (by omega) (by omega) hlines hulines fuel (by simp; omega)
+  refine ⟨m1, m2, m3, loc1, loc2, loc3, bl', gl', fa', _, _, h1, h2, h3, hG3, ?_, hc, hE, hfr⟩
+  rw [hn]
+  simp [Econf.groupsOf, List.foldl_map]
+
 end LeafKf
+
+namespace LeafKf.Example
+
+theorem model_merge : Econf.mergeEntries us es = [
+    { group := Econf.NONE, key := [120], value := some [50], cb := none, ca := some [99], line := 2, quotes := false },
+    { group := [65], key := [107], value := some [49], cb := none, ca := none, line := 1, quotes := false },
+    { group := [66], key := [121], value := none, cb := none, ca := none, line := 5, quotes := false }] := by
+  decide
+
+/-- the three calls in sequence on the concrete memory of this section: every hypothesis of `C_merge3` is met, the array ends up with the
+    model's three entries (the group-less one first, the base's entry, the entry of the new group) and the group list with their groups -/
+theorem run_merge3 : ∃ m1 m2 m3 loc1 loc2 loc3 bl' gl' fa',
+    exec 20 LeafFns.insert_nogroup.body { mem := mem, loc := [.ptr 0 0, .ptr 2 0, .ptr 4 0, .ptr 9 0, .undef, .undef, .undef, .undef, .undef] } =
+      .ret (.int 1) { mem := m1, loc := loc1 } ∧
+    exec 20 LeafFns.merge_existing_groups.body { mem := m1, loc := [.ptr 0 0, .ptr 2 0, .ptr 4 0, .ptr 9 0, .int 1] ++ List.replicate 10 .undef } =
+      .ret (.int 2) { mem := m2, loc := loc2 } ∧
+    exec 20 LeafFns.add_new_groups.body { mem := m2, loc := [.ptr 0 0, .ptr 2 0, .ptr 4 0, .ptr 9 0, .int 2, .undef, .undef, .undef, .undef, .undef] } =
+      .ret (.int 3) { mem := m3, loc := loc3 } ∧
+    GlMem m3 0 bl' gl' ∧ gl'.map (·.2) = [Econf.NONE, [65], [66]] ∧
+    (∃ cblk', m3[2]? = some cblk' ∧ cblk'.live = true ∧ cblk'.slots[0]? = some (.ptr fa' 0)) ∧
+    EntMem m3 fa' 7 { group := [65], key := [107], value := some [49], cb := none, ca := none, line := 1, quotes := false } [0, bl'] := by
+  obtain ⟨m1, m2, m3, loc1, loc2, loc3, bl', gl', fa', h1, h2, h3, hG, hn, hc, hE, _⟩ :=
+    C_merge3 mem 0 1 3 2 4 5 9 10 us es [] 3 base_full override_ok _ rfl rfl rfl rfl rfl (by decide) (by decide) dest_ok
+      (fun blk hb => by cases hb; rfl) (by decide) (fun x hx => by cases hx) _ rfl rfl rfl rfl rfl
+      (by rw [model_merge]; decide) (by decide) (by rw [model_merge]; decide) (by decide) (by decide) (by decide)
+      (fun e he => by simp [es] at he; rcases he with rfl | rfl | rfl <;> decide)
+      (fun e he => by simp [us] at he; subst he; decide) 20 (by rw [model_merge]; decide)
+  have hi : (Econf.insertNoGroup us es).length = 1 := by decide
+  have hm : (Econf.mergeExisting us es).length = 1 := by decide
+  rw [hi] at h1 h2 h3
+  rw [hm] at h2 h3
+  rw [model_merge] at h3 hn hE
+  refine ⟨m1, m2, m3, loc1, loc2, loc3, bl', gl', fa', h1, h2, h3, hG, ?_, hc, ?_⟩
+  · rw [hn]; decide
+  · simpa using hE 1 (by simp)
+
+end LeafKf.Example
